@@ -57,9 +57,22 @@ def replay(arg):
     owner = {}       # id(real object) -> model key
     keep = []        # keep every object alive so id() stays unique
 
+    blackbox = [False]     # set when the identity caches are not laid out as the property's anchors say
+
     def project():
         """real heap restricted to the mapped universe: {(tab, mz, ma, mq): object}; unmapped ions/isotopes of the
-        mapped elements are reported under ('?', ...) keys"""
+        mapped elements are reported under ('?', ...) keys.  If the caches cannot be read (another layout), the replay
+        goes on as a black box: the heap is what earlier calls returned, and only outcomes and object stability are
+        compared."""
+        if blackbox[0]:
+            return dict(seen)
+        try:
+            return _project()
+        except AttributeError:
+            blackbox[0] = True
+            return dict(seen)
+
+    def _project():
         out = {}
         for T in elems:
             for mz in (1, 8):
@@ -89,6 +102,15 @@ def replay(arg):
 
     def fetch(key):
         T, mz, ma, mq = key
+        if blackbox[0]:
+            if key in seen:
+                return seen[key]
+            o = elems[T][mz]              # through the public routes
+            if ma:
+                o = o[ra(mz, ma)]
+            if mq:
+                o = o.ion[qmap[mz][mq]]
+            return o
         o = elems[T][mz]
         if ma:
             o = o._isotopes[ra(mz, ma)]
@@ -126,7 +148,7 @@ def replay(arg):
         owner[id(o)] = k
         keep.append(o)
     exp0 = set((o["tab"], o["z"], o["a"], o["q"]) for o in hist[0]["heap"])
-    if set(h0) != exp0:
+    if set(h0) != exp0 and not blackbox[0]:
         problems.append({"step": 0, "clause": "InitialHeap", "got": sorted(map(str, set(h0) ^ exp0))})
     for i, st in enumerate(hist[1:], 1):
         act, want = st["act"], st["last"]
@@ -152,7 +174,7 @@ def replay(arg):
                 mass.init(tables[T])
                 got = "ok"
             elif op == "AddIsotope":
-                before = set(elems[T][mz]._isotopes)
+                before = set(elems[T][mz].isotopes)
                 res = elems[T][mz].add_isotope(ra(mz, ma))
                 got = "found" if ra(mz, ma) in before else "created"
             elif op == "LookupBase":
@@ -163,8 +185,7 @@ def replay(arg):
                 base = elems[T][mz]
                 if ma:
                     base = base[ra(mz, ma)]
-                cache = base.ion.ionset
-                had = qmap[mz][mq] in cache
+                had = ((T, mz, ma, mq) in seen) if blackbox[0] else (qmap[mz][mq] in base.ion.ionset)
                 res = base.ion[qmap[mz][mq]]
                 got = "found" if had else "created"
             elif op == "Restore":
@@ -183,11 +204,14 @@ def replay(arg):
                 src = fetch((act["sT"], mz, ma, mq))
                 base = elems[T][mz]
                 had = True
-                if ma:
-                    base = base._isotopes.get(ra(mz, ma))
-                if mq and base is not None:
-                    ionset = base.__dict__.get("ion")
-                    had = ionset is not None and qmap[mz][mq] in ionset.ionset
+                if blackbox[0]:
+                    had = (T, mz, ma, mq) in seen or not mq
+                else:
+                    if ma:
+                        base = base._isotopes.get(ra(mz, ma))
+                    if mq and base is not None:
+                        ionset = base.__dict__.get("ion")
+                        had = ionset is not None and qmap[mz][mq] in ionset.ionset
                 res = core.change_table(src, tables[T])
                 got = "found" if had else "created"
             else:
@@ -203,9 +227,16 @@ def replay(arg):
         clause = None
         exp = set((o["tab"], o["z"], o["a"], o["q"]) for o in st["heap"])
         dup = [o for o in st["heap"] if o["gen"] != 0]
-        if got != want:
+        if blackbox[0] and res is not None and want in ("found", "created"):
+            key = (T, mz, ma, mq)
+            if key in seen and seen[key] is not res:
+                clause = "ObjectReplaced"
+            heap[key] = res
+        if clause is not None:
+            pass
+        elif got != want:
             clause = "Outcome"
-        elif set(heap) != exp:
+        elif set(heap) != exp and not blackbox[0]:
             clause = "HeapKeys"
         else:
             for k, o in heap.items():
@@ -216,7 +247,7 @@ def replay(arg):
                 elif id(o) in owner:
                     clause = "OneObjectTwoKeys"
                     break
-            if clause is None and res is not None and want in ("found", "created"):
+            if clause is None and res is not None and want in ("found", "created") and not blackbox[0]:
                 # the returned object is the heap object of the key the call denotes
                 key = (T, mz, ma, mq)
                 if heap.get(key) is not res:
@@ -238,4 +269,4 @@ def replay(arg):
                              "act": act, "binding": binding,
                              "heap_diff": sorted(map(str, set(heap) ^ exp))[:6]})
             break
-    return {"problems": problems, "steps": steps, "binding": binding, "objects": len(seen)}
+    return {"problems": problems, "steps": steps, "binding": binding, "objects": len(seen), "blackbox": blackbox[0]}
